@@ -134,8 +134,15 @@ class Sim:
         self._driver = None
         self.stats = {}
         self.watch = []                     # callables(sim) run at each decision
+        self.net = None
+        self.evno = 0
 
     # -- bookkeeping ------------------------------------------------------
+    def next_event(self):
+        """Global event sequence number (total order of recorded events)."""
+        self.evno += 1
+        return self.evno
+
     def new_id(self, kind):
         n = self._ids.get(kind, 0)
         self._ids[kind] = n + 1
